@@ -658,6 +658,13 @@ impl<V: Variant> Exec<V> {
                 let e = self.h(*h)?;
                 Some(vec![2, self.cur.world.entities().delete(e).is_ok() as i64])
             }
+            (15, hs) => {
+                let mut es = Vec::new();
+                for h in hs {
+                    es.push(self.h(*h)?);
+                }
+                Some(vec![2, self.cur.world.delete_entities(&es).is_ok() as i64])
+            }
             (8, []) => {
                 self.cur.world.maintain();
                 Some(vec![4])
